@@ -429,6 +429,267 @@ def oracle_trunc(ctx, thorough, forced=None):
     return None, case, inner.stop_reason_
 
 
+# ----------------------------------------------------------------------------- a completed fit AFTER a fit that raised
+
+class _Timeout(BaseException):
+    pass
+
+
+class time_limit:
+    """wall-clock limit for one call into the implementation (main thread only; elsewhere a no-op)"""
+
+    def __init__(self, seconds):
+        self.seconds = seconds
+        self.armed = False
+
+    def _raise(self, signum, frame):
+        raise _Timeout()
+
+    def __enter__(self):
+        import signal
+        import threading
+        if threading.current_thread() is threading.main_thread() and hasattr(signal, 'SIGALRM'):
+            self.old = signal.signal(signal.SIGALRM, self._raise)
+            signal.alarm(self.seconds)
+            self.armed = True
+        return self
+
+    def __exit__(self, *a):
+        if self.armed:
+            import signal
+            signal.alarm(0)
+            signal.signal(signal.SIGALRM, self.old)
+        return False
+
+
+# continuous-time SISO filters (zeros, poles) of order one and two: low-pass, lead / lag, high-pass (zero at the origin)
+AF_SHAPES = {1: [([], [-4.0]), ([0.0], [-4.0]), ([-0.5], [-3.0]), ([-1.0], [-4.0]), ([0.0], [-2.0]), ([-6.0], [-2.0])],
+             2: [([0.0], [-2.0, -5.0]), ([-1.0], [-3.0, -6.0]), ([0.0, -1.0], [-2.0, -5.0]), ([], [-3.0, -4.0])]}
+AF_GAINS = [0.05, 0.2, 1.0, 5.0]
+AF_MODES = ['alpha zero', 'alpha negative', 'unknown solver', 'unknown solver option', 'weight C of the wrong width',
+            'weight B of the wrong height', 'weight with a NaN', 'solver raises in a later call']
+AF_ROUTES = ['edmd', 'dmdc', 'meta-edmd', 'meta-dmdc']
+
+
+def af_zpk(rng, order, avoid=None, gain=None):
+    """a stable filter as (zeros, poles, gain, discretisation, t_step), different from avoid"""
+    while True:
+        z, p = rng.choice(AF_SHAPES[order])
+        spec = (list(z), list(p), rng.choice(AF_GAINS) if gain is None else gain, rng.choice(['bilinear', 'zoh']),
+                rng.choice([0.1, 0.25, 0.5]))
+        if avoid is None or spec[:3] != avoid[:3]:
+            return spec
+
+
+def af_weight(kind, spec, route='meta'):
+    """the discretised state-space weight of a zpk spec (scipy; units rad/s), as LmiHinfZpkMeta is documented to build it.
+    Given directly to a regressor, a second-order filter is handed over in modal coordinates with a small input matrix (the
+    same filter; unlike the companion form it is usually feasible with the initial P = I)"""
+    z, p, g, disc, dt = spec
+    ssd = scipy.signal.ZerosPolesGain(np.array(z, dtype=float), np.array(p, dtype=float), g).to_ss().to_discrete(dt, method=disc)
+    A, B, C, D = np.array(ssd.A), np.array(ssd.B), np.array(ssd.C), np.array(ssd.D)
+    if A.shape[0] > 1 and not route.startswith('meta'):
+        lam, V = np.linalg.eig(A)
+        if np.all(np.isreal(lam)) and np.linalg.cond(V) < 1e6:
+            V = np.real(V)
+            Bm = np.linalg.solve(V, B)
+            sc = 0.3 / max(np.linalg.norm(Bm), 1e-12)
+            A, B, C = np.diag(np.real(lam)), Bm * sc, (C @ V) / sc
+    return (kind, A, B, C, D)
+
+
+def af_make(route, kind, spec, args):
+    """a NEW estimator instance on the given route with the weight of spec (kind None: no weight); returns (estimator,
+    function giving the fitted inner regressor)"""
+    cls = lmi.LmiDmdcHinfReg if route.endswith('dmdc') else lmi.LmiEdmdHinfReg
+    if kind is None:
+        return cls(weight=None, **args), (lambda e: e)
+    if route.startswith('meta'):
+        est = lmi.LmiHinfZpkMeta(hinf_regressor=cls(**args), type=kind, zeros=spec[0], poles=spec[1], gain=spec[2],
+                                 discretization=spec[3], t_step=spec[4], units='rad/s')
+        return est, (lambda e: e.hinf_regressor_)
+    return cls(weight=af_weight(kind, spec, route), **args), (lambda e: e)
+
+
+def af_judge(name, inner, weight, pt):
+    """the property on one completed fit, from its returned Koopman matrix and the weight IT was given"""
+    coef = np.asarray(inner.coef_, dtype=float)
+    if not np.all(np.isfinite(coef)):
+        return f'{name}: coef_ is not finite'
+    if not np.any(coef):
+        return None
+    U = coef.T
+    A, B, C, D = series_with_weight(U[:, :pt], U[:, pt:], weight)
+    rad = np.max(np.abs(np.linalg.eigvals(A)))
+    if rad >= 1 - 1e-9:
+        return f'{name}: identified (weighted) system is not asymptotically stable (spectral radius {rad:.9f})'
+    norm = hinf_norm(A, B, C, D, 1500)
+    gamma = float(np.ravel(inner.gamma_)[0])
+    if norm > gamma * (1 + 1e-4) + 1e-7:
+        return (f'{name}: true H-infinity norm {norm:.6f} of the identified system in series with the weight it was given '
+                f'exceeds the reported gamma_ {gamma:.6f}')
+    log = inner.objective_log_
+    for a, b in zip(log, log[1:]):
+        if b > a + 1e-4 * max(1.0, abs(a)):
+            return f'{name}: logged objective increases from {a} to {b}'
+    return None
+
+
+def oracle_after_failure(ctx, thorough, forced=None):
+    """Exception safety: a weighted H-infinity fit that RAISES after it has started (rejected alpha, a weight whose matrices do
+    not fit together or hold a NaN, a solver that refuses its options or raises in a later call), followed by a VALID fit of
+    ANOTHER estimator instance with a different weight (mostly of the same kind and order, and on data of the same sizes). The
+    later fit is judged on its own: stability, independently computed H-infinity norm of the cascade with the weight IT was
+    given vs gamma_, monotone log; and it must return what the same fit returned BEFORE the failing call (the reference is
+    fitted first, in a state no failed fit has touched). forced = (failure mode, weight kind, failing route, later route)"""
+    import picos
+    rng = ctx.rng
+    snap = ctx.snap()
+    mode, kind, r1, r2 = rng.choice(AF_MODES), rng.choice(['pre', 'post']), rng.choice(AF_ROUTES), rng.choice(AF_ROUTES)
+    if forced is not None:
+        mode, kind, r1, r2 = forced
+    order = rng.choice([1, 1, 2])
+    nx, nu = rng.randint(1, 3 if order == 1 else 2), rng.randint(1, 2)      # (replicated second-order weights: keep the LMI small)
+    X, kw, _, _ = lc.lin_data(rng, nx, nu, radius=rng.choice([0.6, 0.9]), noise=0.02, n_min=20)
+    # the failing fit: mostly on other data of the same sizes, sometimes on the same data or on data of other sizes
+    u = rng.random()
+    if u < 0.25:
+        X1, kw1, same = X, kw, 'same data'
+    elif u < 0.85:
+        X1, kw1, _, _ = lc.lin_data(rng, nx, nu, radius=0.8, noise=0.02, n_min=14)
+        same = 'same sizes'
+    else:
+        X1, kw1, _, _ = lc.lin_data(rng, rng.randint(1, 3), rng.randint(1, 2), radius=0.8, noise=0.02, n_min=14)
+        same = 'any sizes'
+    spec1 = af_zpk(rng, order)
+    # the later fit: another filter; half of the time with a much larger gain than the one of the failed fit (a bound that
+    # was computed for the earlier weight is then far too small)
+    u = rng.random()
+    kind2, order2 = kind, order
+    if u < 0.1:
+        kind2 = None
+    elif u < 0.2:
+        kind2 = 'pre' if kind == 'post' else 'post'
+    elif u < 0.3:
+        order2 = 3 - order
+    if rng.random() < 0.5:
+        spec1 = spec1[:2] + (rng.choice([0.05, 0.2]),) + spec1[3:]
+        spec2 = af_zpk(rng, order2, avoid=spec1, gain=rng.choice([1.0, 5.0]))
+    else:
+        spec2 = af_zpk(rng, order2, avoid=spec1)
+    weight2 = None if kind2 is None else af_weight(kind2, spec2, r2)
+    args2 = dict(alpha=rng.choice([1, 5, 100]), ratio=rng.choice([0.5, 1, 1]), max_iter=rng.choice([2, 4, 6]),
+                 square_norm=rng.random() < 0.2, solver_params=dict(lc.SOLVER))
+    args1 = dict(alpha=rng.choice([0.5, 1, 5]), ratio=rng.choice([0.5, 1]), max_iter=rng.choice([2, 4]),
+                 solver_params=dict(lc.SOLVER))
+    bad_weight = None
+    w1 = af_weight(kind, spec1, r1)
+    n1 = w1[1].shape[0]
+    fail_at = None
+    if mode == 'alpha zero':
+        args1['alpha'] = 0
+    elif mode == 'alpha negative':
+        args1['alpha'] = -rng.choice([0.5, 1, 2])
+    elif mode == 'unknown solver':
+        args1['solver_params'] = {'solver': 'no_such_solver'}
+    elif mode == 'unknown solver option':
+        args1['solver_params'] = dict(lc.SOLVER, no_such_option=1)
+    elif mode == 'weight C of the wrong width':
+        bad_weight = (kind, w1[1], w1[2], np.hstack((w1[3], np.ones((1, 1)))), w1[4])
+    elif mode == 'weight B of the wrong height':
+        bad_weight = (kind, w1[1], np.vstack((w1[2], np.ones((1, 1)))), w1[3], w1[4])
+    elif mode == 'weight with a NaN':
+        Cn = np.array(w1[3], dtype=float)
+        Cn[0, rng.randrange(n1)] = np.nan
+        bad_weight = (kind, w1[1], w1[2], Cn, w1[4])
+    else:
+        fail_at = rng.randint(1, 2 * args1['max_iter'])
+    case = {'oracle': 'after_failure', 'family': r2, 'weight': kind2, 'failure': mode, 'failing_route': r1, 'failing_weight': kind,
+            'failing_data': same, 'nx': nx, 'nu': nu, 'zpk_failing': list(spec1), 'zpk': list(spec2), 'order': [order, order2],
+            'alpha': args2['alpha'], 'ratio': args2['ratio'], 'max_iter': args2['max_iter'], 'square_norm': bool(args2['square_norm']),
+            'X': X.tolist(), 'X_failing': X1.tolist(),
+            'replay': {'oracle': 'after_failure', 'rng': snap, 'thorough': thorough, 'forced': forced}}
+    name = {'edmd': 'LmiEdmdHinfReg', 'dmdc': 'LmiDmdcHinfReg', 'meta-edmd': 'LmiHinfZpkMeta(LmiEdmdHinfReg)',
+            'meta-dmdc': 'LmiHinfZpkMeta(LmiDmdcHinfReg)'}[r2]
+    if kind2 is None:
+        name = name.replace('LmiHinfZpkMeta(', '').replace(')', '')
+
+    def valid_fit():
+        est, get = af_make(r2, kind2, spec2, args2)
+        est.fit(X, **kw)
+        inner = get(est)
+        if kind2 is not None and r2.startswith('meta'):
+            w = inner.weight
+            if w[0] != kind2 or not all(np.allclose(a, b, rtol=1e-12, atol=1e-14) for a, b in zip(w[1:], weight2[1:])):
+                return inner, 'the weight handed to the wrapped regressor is not the discretised zpk filter'
+        return inner, None
+    # 1. the reference: the valid fit in a state that no failed fit has touched
+    try:
+        ref, bad = valid_fit()
+    except Exception as ex:
+        return None, case, 'reference fit did not complete: ' + type(ex).__name__
+    if bad:
+        return f'{name}: {bad}', case, None
+    why = af_judge(name + ' (fresh)', ref, weight2, nx)
+    if why:
+        return why, case, None
+    ref_out = (np.array(ref.coef_, dtype=float), float(np.ravel(ref.gamma_)[0]), int(ref.n_iter_), [float(v) for v in ref.objective_log_],
+               str(ref.stop_reason_))
+    # 2. a fit that raises after it has started
+    raised = None
+    orig_solve = picos.Problem.solve
+    try:
+        if fail_at is not None:
+            calls = [0]
+
+            def scripted(self, *a, **k):
+                calls[0] += 1
+                if calls[0] >= fail_at:
+                    raise RuntimeError('solver failure (scripted by the harness)')
+                return orig_solve(self, *a, **k)
+            picos.Problem.solve = scripted
+        if bad_weight is not None:
+            cls1 = lmi.LmiDmdcHinfReg if r1.endswith('dmdc') else lmi.LmiEdmdHinfReg
+            est1 = cls1(weight=bad_weight, **args1)        # (the meta-estimator cannot express a malformed weight)
+        else:
+            est1, _ = af_make(r1, kind, spec1, args1)
+        try:
+            est1.fit(X1, **kw1)
+        except Exception as ex:
+            raised = type(ex).__name__
+    finally:
+        picos.Problem.solve = orig_solve
+    case['failing_fit_raised'] = raised
+    # 3. the same valid fit again, with a new estimator instance
+    try:
+        est, bad = valid_fit()
+    except Exception as ex:
+        return (f'{name}: a valid fit raises {type(ex).__name__} ({str(ex)[:120]}) after a fit of another estimator failed '
+                f'({mode}: {raised}); the same fit completed before the failing call'), case, None
+    if bad:
+        return f'{name}: {bad}', case, None
+    note = 'failing fit raised' if raised else 'failing fit did not raise'
+    why = af_judge(name + f' fitted after a fit of another estimator failed ({mode}: {raised})', est, weight2, nx)
+    if why:
+        return why, case, None
+    coef = np.asarray(est.coef_, dtype=float)
+    tol = 1e-6 * (1.0 + float(np.max(np.abs(ref_out[0]))))
+    if coef.shape != ref_out[0].shape or not np.allclose(coef, ref_out[0], rtol=0, atol=tol):
+        d = float(np.max(np.abs(coef - ref_out[0]))) if coef.shape == ref_out[0].shape else float('nan')
+        return (f'{name}: coef_ of a valid fit differs by {d:.3e} from the same fit before a fit of another estimator failed '
+                f'({mode}: {raised})'), case, None
+    g = float(np.ravel(est.gamma_)[0])
+    if abs(g - ref_out[1]) > 1e-6 * (1.0 + abs(ref_out[1])):
+        return (f'{name}: gamma_ of a valid fit is {g:.9g}, the same fit before a fit of another estimator failed '
+                f'({mode}: {raised}) gave {ref_out[1]:.9g}'), case, None
+    log = [float(v) for v in est.objective_log_]
+    if int(est.n_iter_) != ref_out[2] or len(log) != len(ref_out[3]) or \
+            any(abs(a - b) > 1e-6 * (1.0 + abs(b)) for a, b in zip(log, ref_out[3])):
+        return (f'{name}: iteration count / objective log of a valid fit ({int(est.n_iter_)}, {log}) differ from the same fit before a '
+                f'fit of another estimator failed ({ref_out[2]}, {ref_out[3]})'), case, None
+    return None, case, note + ('; ' + ref_out[4][:40] if not np.any(coef) else '')
+
+
 def meta_case(ctx, form=None):
     """LmiHinfZpkMeta: the weight handed to the wrapped regressor is the discretised state-space form of the zpk filter
     after the unit conversion; the fitted cascade obeys the gamma_ bound"""
@@ -498,12 +759,20 @@ def run(ctx):
                 'snapshot matrices; sometimes a truncated tsvd_unshifted too) fitted directly, as the regressor of a KoopmanPipeline '
                 '(plain / delay / polynomial lifting) and inside LmiHinfZpkMeta, no / pre / post weight: the RETURNED Koopman matrix '
                 'over all lifted states and its own series connection with the weight have every |eig| < 1 - 1e-9, the independent '
-                'H-infinity norm stays below gamma_, the log is monotone')
+                'H-infinity norm stays below gamma_, the log is monotone; (vi) exception safety / state shared between fits: a '
+                'weighted fit (either family, directly or inside LmiHinfZpkMeta) that RAISES after it has started - alpha zero or '
+                'negative, an unknown solver or solver option, a weight whose B / C do not fit or that holds a NaN, a solver that '
+                'raises in a later call - followed by a valid fit of ANOTHER estimator instance with a different zpk weight (mostly '
+                'same kind, order and data sizes; sometimes another kind / order / no weight): the later fit is stable and the '
+                'independent H-infinity norm of its cascade with the weight IT was given stays below its gamma_, it does not raise, '
+                'and its coef_ / gamma_ / n_iter_ / objective log equal (1e-6) those of the same fit made BEFORE the failing call')
     ctx.explanation = ('theorems C10_* (bounded-real core, dissipation, l2-gain over every horizon with no side condition, '
                        'stability from the 2x2 sub-block via C09, frequency-domain bound |G(z)u| <= gamma|u| on the whole unit circle: C10_hinf_norm); correspondence of LMI structure, series connection and '
                        'loop; oracle: norm <= gamma_(1+1e-4), stability, monotone log - on full and on really truncated DMDc bases (C10_dmdc_lift: '
                        'from rest the state of the returned model Q A_hat Q^T is Q times the reduced state; the oracle measures the '
-                       'spectrum of the returned matrix itself), on every route that returns coef_')
+                       'spectrum of the returned matrix itself), on every route that returns coef_; the theorems speak about ONE fit, so '
+                       'the same oracle is also applied to a completed fit that follows a fit which raised part-way (nothing a failed fit '
+                       'leaves behind may enter a later problem: the later fit is compared with the identical fit made before the failure)')
     ctx.assumptions = ["an 'optimal' solver answer satisfies its constraints up to tolerance (measured by the oracle)",
                        'scipy zpk -> state space and discretisation in LmiHinfZpkMeta: trusted']
     ctx.proof_obligations('Properties.C10', THEOREMS)
@@ -641,6 +910,26 @@ def run(ctx):
             ctx.fail(why, case, {'family': 'dmdc', 'weight': case['weight'], 'route': case['route'], 'truncated': True})
     for i in range(ctx.n(6, 150) + len(forced_tr)):
         ctx.attempt('truncated DMDc fit', lambda i=i: _one_truncated(i))
+    # exception safety: a valid weighted fit of another estimator instance after a weighted fit that raised part-way; every
+    # failure mode x weight kind x failing route x later route in turn, then at random
+    forced_af = [(AF_MODES[i % len(AF_MODES)], ('post', 'pre')[(i // len(AF_MODES) + i) % 2], AF_ROUTES[i % 4],
+                  AF_ROUTES[(i // 4 + i) % 4]) for i in range(32)]
+
+    def _one_after_failure(i):
+        try:
+            with time_limit(120):
+                why, case, note = oracle_after_failure(ctx, ctx.tier == 'thorough', forced=forced_af[i] if i < len(forced_af) else None)
+        except _Timeout:
+            ctx.count('after failed fit:timed out (not judged)')
+            return
+        ctx.count(f"after failed fit:{case['failure']}")
+        ctx.count(f"after failed fit:{case['failing_route']} ({case['failing_weight']}) -> {case['family']} ({case['weight']})")
+        ctx.count('after failed fit:' + ('verdict' if why else str(note)[:70]))
+        ctx.record_case({k: v for k, v in case.items() if k not in ('X', 'X_failing', 'replay')}, True)
+        if why:
+            ctx.fail(why, case, {'family': case['family'], 'weight': case['weight'], 'after_failed_fit': case['failure']})
+    for i in range(ctx.n(16, 240)):
+        ctx.attempt('fit after a failed fit', lambda i=i: _one_after_failure(i))
     for i in range(ctx.n(15, 90)):
         why, tag, note = meta_case(ctx, form=i)      # every argument form in turn, other options at random
         ctx.count('meta:' + tag['units'])
@@ -675,6 +964,10 @@ def replay(ctx, path):
         print('this replay carries no re-executable oracle call (broken proof / correspondence: see "broken")')
         return 1
     ctx.restore(r['rng'])
+    if r.get('oracle') == 'after_failure':
+        why, case, note = oracle_after_failure(ctx, r['thorough'], forced=None if r['forced'] is None else tuple(r['forced']))
+        print('oracle now:', why or 'property holds on this input', '' if note is None else f'({note})')
+        return 1 if why else 0
     if r.get('oracle') == 'trunc':
         why, case, note = oracle_trunc(ctx, r['thorough'], forced=None if r['forced'] is None else tuple(r['forced']))
         print('oracle now:', why or 'property holds on this input', '' if note is None else f'({note})')
